@@ -5,7 +5,7 @@
      lit s   = the characters of s inside literals, in order *)
 From Coq Require Import List NArith Arith Bool.
 Import ListNotations.
-Require Import Pyrefact.LayoutModel Pyrefact.LayoutProofs.
+Require Import Pyrefact.LayoutModel Pyrefact.LayoutProofs Pyrefact.RestoreModel Pyrefact.RestoreProofs.
 
 (* ---- T11.1: every stage changes only whitespace, for all texts -------------------------------- *)
 (* expandtabs and rmspace touch nothing but spaces and tabs (any tab size, any start column) *)
@@ -114,6 +114,40 @@ Theorem T11_6_indent_columns : forall a b a' b' c ts,
               (col_after ts 0 (expandtabs_plain 4 (indent_ts a' b'))) = c.
 Proof. exact indent_order_preserved. Qed.
 Print Assumptions T11_6_indent_columns.
+
+(* ---- T11.7 / R11.8: the quote-restoration step (_substitute_original_strings) ------------------ *)
+(* a spelling is overwritten only if, parsed on its own, it is a literal of the node's value, and only with
+   an original spelling that is a literal of the same value *)
+Theorem T11_7_restore_sound : forall origs news nd c,
+  restore_node origs news nd = Some c ->
+  n_lit nd = true /\
+  forall t, In t c -> exists o, In o origs /\ o_text o = t /\ o_val o = n_val nd /\ o_lit o = true.
+Proof. exact restore_node_sound. Qed.
+Print Assumptions T11_7_restore_sound.
+
+Theorem T11_7_restore_whole : forall a origs news i c,
+  nth_error (restore a origs news) i = Some (Some c) ->
+  exists nd, nth_error news i = Some nd /\ restore_node origs news nd = Some c.
+Proof. exact restore_sound. Qed.
+Print Assumptions T11_7_restore_whole.
+
+(* hence, for any denotation the two booleans are computed from, old and new spelling denote the same value *)
+Theorem T11_7_restore_same_value : forall (den : nat -> option nat) origs news nd c t,
+  (forall o, In o origs -> o_lit o = true -> den (o_text o) = Some (o_val o)) ->
+  (n_lit nd = true -> den (n_text nd) = Some (n_val nd)) ->
+  restore_node origs news nd = Some c -> In t c ->
+  den t = den (n_text nd).
+Proof. exact restore_same_value. Qed.
+Print Assumptions T11_7_restore_same_value.
+
+Theorem R11_8_restore_guard_needed : exists origs news nd c,
+  restore_node_unguarded origs news nd = Some c /\ n_lit nd = false /\ restore_node origs news nd = None.
+Proof. exact restore_guard_needed. Qed.
+Print Assumptions R11_8_restore_guard_needed.
+
+Example restore_example :
+  restore false [mkO 7 1 true; mkO 8 3 true] [mkN 7 2 true; mkN 8 3 true; mkN 7 4 false] = [Some [1]; None; None].
+Proof. reflexivity. Qed.
 
 (* ---- the guards are satisfiable by inputs on which the stages do something ---------------------- *)
 (* print("a")<TAB># c<SP><NL><NL><NL><NL><NL>x = 1<NL><NL> : the literal is masked *)
